@@ -48,6 +48,17 @@ extern "C" int LLVMFuzzerTestOneInput(const uint8_t* data, size_t size) {
         if (pat[i] == ')' && (pat[i + 1] == '*' || pat[i + 1] == '+' || pat[i + 1] == '{')) {
             for (size_t j = 0; j < i; j++) if (pat[j] == '*' || pat[j] == '+' || pat[j] == '?' || pat[j] == '{') return 0;
         }
+    // known finding C01-regex-nongreedy-zero-width-loop: a non-greedy closure (*? +? {n,}?) whose operand can match the empty string (anchor, group,
+    // back reference, ...) never leaves RegularExpression::match when what follows fails.  Only non-greedy closures of a plain character, '.',
+    // or a character class are explored.
+    for (size_t i = 1; !noFilter && i + 1 < pat.size(); i++)
+        if (pat[i + 1] == '?' && (pat[i] == '*' || pat[i] == '+' || pat[i] == '}')) {
+            size_t k = i; if (pat[i] == '}') { while (k > 0 && pat[k] != '{') k--; }
+            if (k == 0) return 0;
+            unsigned char o = (unsigned char)pat[k - 1];
+            bool simple = (isalnum(o) || o == '.' || o == ']' || o >= 0x80) && !(k >= 2 && pat[k - 2] == '\\');
+            if (!simple) return 0;
+        }
     X xp(pat), xs(sub), xo(optsets[oi]);
     try {
         RegularExpression re(xp.c(), xo.c());
